@@ -88,6 +88,8 @@ def family_of(case, ob):
         return "%s modifies its input %s in place path{%s}" % (base, m["of"], c01.stable_path(m["path"]))
     if m["what"] == "output":
         return "%s output %s depends on pre-state path{%s}" % (base, m["of"], c01.stable_path(m["path"]))
+    if m["what"] == "jac_again":
+        return "%s partial d(%s)/d(%s) changes when linearised a second time at the same point path{%s}" % (base, m["of"], m["wrt"], c01.stable_path(m["path"]))
     return "%s partial d(%s)/d(%s) depends on pre-state path{%s}" % (base, m["of"], m["wrt"], c01.stable_path(m["path"]))
 
 
@@ -97,6 +99,8 @@ def replay_point(case, env, meta, tol=1e-9):
     vals = partials.inputs_from_env(r0, env)
     if meta["what"] == "input":
         return replay_input_kept(case, vals, meta)
+    if meta["what"] == "jac_again":
+        return replay_second_linearisation(case, vals, meta)
     rng = np.random.default_rng(99)
     hv = case.nominal(r0, rng) if case.nominal else partials.default_nominal(r0, rng)
     hist = {n: np.array(hv.get(n, r0.defaults[n]), dtype=float).reshape(r0.shapes[n]) for n in r0.in_names}
@@ -129,6 +133,34 @@ def replay_point(case, env, meta, tol=1e-9):
                 float(np.max(np.abs(a))), len(history), d,
                 meta["of"] if meta["what"] == "output" else "d(%s)/d(%s)" % (meta["of"], meta["wrt"])))
     return worst[0] > tol, worst[1] or "identical after every history tried"
+
+
+def replay_second_linearisation(case, vals, meta):
+    """the real component in a real Problem: run_model once, then compute_totals twice - the second set of derivatives
+    must equal the first"""
+    import warnings
+
+    import openmdao.api as om
+
+    comp = case.factory(dict(case.cfg))
+    r0 = partials.CompRunner(case.factory(dict(case.cfg)), prerun=False)
+    if r0.implicit:
+        return None, "no second-linearisation replay for implicit components"
+    prob = om.Problem(reports=False)
+    ivc = om.IndepVarComp()
+    for n in r0.in_names:
+        ivc.add_output(n, val=np.asarray(vals[n], dtype=float).reshape(r0.shapes[n]), units=r0.comp._var_rel2meta[n].get("units"))
+    prob.model.add_subsystem("ivc", ivc, promotes=["*"])
+    prob.model.add_subsystem("c", comp, promotes=["*"])
+    with warnings.catch_warnings():
+        warnings.simplefilter("ignore")
+        prob.setup()
+        prob.run_model()
+        first = np.array(prob.compute_totals(of=[meta["of"]], wrt=[meta["wrt"]], return_format="array"), dtype=float)
+        again = np.array(prob.compute_totals(of=[meta["of"]], wrt=[meta["wrt"]], return_format="array"), dtype=float)
+    d = float(np.abs(first - again).max())
+    sc = max(1e-300, float(np.abs(first).max()))
+    return d > 1e-9 * sc, "d(%s)/d(%s): first linearisation max|.| = %.6g, the second one at the same point differs by %.6g" % (meta["of"], meta["wrt"], float(np.abs(first).max()), d)
 
 
 def replay_input_kept(case, vals, meta):
@@ -185,7 +217,7 @@ def run(tier, seed, only=None):
             case.name, out["info"]["paths"], ",".join(out["info"]["mutable_attrs"]) or "-", s["obligations"],
             s["nontrivial"], s["discharged"], s["candidate"], s["inconclusive"], time.time() - t0))
     rep.bounds = {"tier": tier, "cases": [c.name for c in cases]}
-    rep.assumptions = ["OpenMDAO calls compute before compute_partials at the same point (apply_nonlinear before linearize)",
+    rep.assumptions = ["OpenMDAO calls compute before the first compute_partials at a point (apply_nonlinear before linearize); it may linearise again without computing",
                        "OpenMDAO's own vectors and solvers carry no state between calls",
                        "real arithmetic"]
     rep.extra["pre_state"] = "outputs, every sub-Jacobian storage entry, and every attribute assigned outside setup (found by ast) are fresh symbols"
